@@ -53,7 +53,7 @@ void MEDDLY::mtmxd_forest::swapAdjacentVariablesByVarSwap(int level)
   int hvar = getVarByLevel(level+1);
   int lvar = getVarByLevel(level);
   int hsize = getVariableSize(hvar);
-  // int lsize = getVariableSize(lvar);
+  int lsize = getVariableSize(lvar);
 
   // Renumber the level of nodes for VarHigh
   int hnum = unique->getNumEntries(hvar);
@@ -133,7 +133,7 @@ void MEDDLY::mtmxd_forest::swapAdjacentVariablesByVarSwap(int level)
       // unpacked_node* nr = newUnpacked(n, FULL_ONLY);
       unpacked_node* nr = unpacked_node::newFromNode(this, n, FULL_ONLY);
       bool update = false;
-      for (int i = 0; i < hsize; i++) {
+      for (int i = 0; i < lsize; i++) {
         if (dup.find(nr->down(i)) != dup.end()) {
           update = true;
           break;
@@ -142,8 +142,8 @@ void MEDDLY::mtmxd_forest::swapAdjacentVariablesByVarSwap(int level)
 
       if (update) {
         unpacked_node* nb =
-            unpacked_node::newWritable(this, level + 1, hsize, FULL_ONLY);
-        for (int i = 0; i < hsize; i++) {
+            unpacked_node::newWritable(this, level + 1, lsize, FULL_ONLY);
+        for (int i = 0; i < lsize; i++) {
           auto search = dup.find(nr->down(i));
           nb->setFull(i, linkNode(search == dup.end() ? nr->down(i) : search->second));
         }
@@ -227,7 +227,7 @@ void MEDDLY::mtmxd_forest::swapAdjacentVariablesByVarSwap(int level)
       unpacked_node* nr = unpacked_node::newFromNode(this, n, FULL_ONLY);
 
       bool update = false;
-      for (int i = 0; i < hsize; i++) {
+      for (int i = 0; i < lsize; i++) {
         if(dup.find(nr->down(i)) != dup.end()){
           update=true;
           break;
@@ -236,8 +236,8 @@ void MEDDLY::mtmxd_forest::swapAdjacentVariablesByVarSwap(int level)
 
       if (update) {
         unpacked_node* nb =
-            unpacked_node::newWritable(this, level + 1, hsize, FULL_ONLY);
-        for (int i = 0; i < hsize; i++) {
+            unpacked_node::newWritable(this, level + 1, lsize, FULL_ONLY);
+        for (int i = 0; i < lsize; i++) {
           auto search = dup.find(nr->down(i));
           nb->setFull(i, linkNode(search == dup.end() ? nr->down(i) : search->second));
         }
